@@ -60,6 +60,8 @@ type faultsIn struct {
 	// per-operation plan: Ops[k][i] = fault of the i-th hooked file operation of cycle k ("" none, error, garbage);
 	// when present, Plan only carries the temperatures
 	Ops [][]string `json:"ops,omitempty"`
+	// cmd fan without getPwm (it is optional): a fan without FeaturePwmSensor
+	NoGetPwm bool `json:"no_get_pwm,omitempty"`
 }
 type faultsObs struct {
 	Kind    int      `json:"kind"` // 0 regulating, 1 stopped after restore, 2 crash
@@ -69,6 +71,7 @@ type faultsObs struct {
 	Ops     []string `json:"ops"`
 	Stalled []bool   `json:"stalled"`
 	LastW   bool     `json:"last_write_faulted"`
+	Cyc     [][2]int `json:"cyc"` // per cycle that ended without error: (request, PWM the device shows)
 	Trace   [][]int  `json:"trace,omitempty"`
 	Panic   string   `json:"panic,omitempty"`
 }
@@ -418,7 +421,9 @@ func faultsRun(ctx *Ctx, seq int, in faultsIn) (faultsObs, string, []string) {
 	default:
 		base.Cmd = &configuration.CmdFanConfig{
 			SetPwm: &configuration.ExecConfig{Exec: e.script("set"), Args: []string{dir, "set", "%pwm%"}},
-			GetPwm: &configuration.ExecConfig{Exec: e.script("get"), Args: []string{dir, "get"}},
+		}
+		if !in.NoGetPwm {
+			base.Cmd.GetPwm = &configuration.ExecConfig{Exec: e.script("get"), Args: []string{dir, "get"}}
 		}
 		if in.HasRpm {
 			base.Cmd.GetRpm = &configuration.ExecConfig{Exec: e.script("rpm"), Args: []string{dir, "rpm"}}
@@ -510,6 +515,8 @@ func faultsRun(ctx *Ctx, seq int, in faultsIn) (faultsObs, string, []string) {
 			break
 		}
 		endCycle()
+		req, _ := c.VerifLastSetPwm()
+		obs.Cyc = append(obs.Cyc, [2]int{req, faultsReadInt(e.pwmPath, -999)})
 	}
 	e.cur = faultsCyc{}
 	e.perOp = false
@@ -553,8 +560,12 @@ func faultsRun(ctx *Ctx, seq int, in faultsIn) (faultsObs, string, []string) {
 	for _, t := range obs.Trace {
 		trs = append(trs, cZList(t))
 	}
+	var cycs []string
+	for _, cy := range obs.Cyc {
+		cycs = append(cycs, "("+cZ(cy[0])+", "+cZ(cy[1])+")")
+	}
 	coq := cRec("mkCase", combo, dev(in.OrigMode, in.OrigPwm), dev(d0Mode, d0Pwm), cList(plan),
-		cZ(obs.Kind), cZ(obs.Cycle), dev(obs.Mode, obs.Pwm), cList(ops), cList(ocs), cBool(obs.LastW), cList(trs))
+		cZ(obs.Kind), cZ(obs.Cycle), dev(obs.Mode, obs.Pwm), cList(ops), cList(ocs), cBool(obs.LastW), cList(trs), cList(cycs))
 	tags := []string{"fan=" + in.Fan, "sensor=" + in.Sensor, "curve=" + in.Curve.T, "outcome=" + []string{"regulating", "stopped", "crash"}[obs.Kind]}
 	if in.Curve.T == "func" {
 		if faultsCurveHasPid(in.Curve) {
@@ -579,6 +590,9 @@ func faultsRun(ctx *Ctx, seq int, in faultsIn) (faultsObs, string, []string) {
 	}
 	if len(in.Ops) > 0 {
 		tags = append(tags, "per-operation")
+	}
+	if in.NoGetPwm {
+		tags = append(tags, "no-pwm-readback")
 	}
 	tags = append(tags, fmt.Sprintf("faults=%d", nf))
 	for _, s := range obs.Stalled {
@@ -848,6 +862,50 @@ func init() {
 				in.HasRpm = rng.Chance(3, 4)
 				jobs = append(jobs, job{in, []string{"perop-multi"}})
 				cnt++
+			}
+			// (g) a failed PWM write exactly when the request reaches a value at which it then stays (curve saturated from
+			//     cycle k on, direct algorithm), on fans whose PWM cannot be read back: cmd fan without getPwm, file / hwmon
+			//     fan whose pwm file is unreadable in every cycle; readable fans with the write fault in k and a read fault in k+1.
+			//     The later fault-free cycles must bring the fan to the value asked for.
+			for _, fanK := range []string{"cmd-noget", "file-unreadable", "hwmon-unreadable", "file-pair", "cmd"} {
+				for k := 0; k < 4; k++ {
+					for _, wk := range []string{"error", "garbage"} {
+						for _, hot := range []bool{true, false} {
+							plan := make([]faultsCyc, nCyc)
+							for i := range plan {
+								// the moving average (window 10) jumps past the saturation point in one step
+								switch {
+								case hot && i < k:
+									plan[i].Temp = 25000
+								case hot:
+									plan[i].Temp = 600000
+								case i < k:
+									plan[i].Temp = 95000
+								default:
+									plan[i].Temp = -600000
+								}
+							}
+							plan[k].PwmWrite = wk
+							fan := strings.SplitN(fanK, "-", 2)[0]
+							in := faultsIn{Fan: fan, Sensor: []string{"hwmon", "file"}[rng.Intn(2)], Curve: faultsCurve{T: "linear"},
+								EnableExists: fan == "hwmon", HasRpm: rng.Bool(), Rpm: 1200, Alg: "direct",
+								OrigMode: rng.Pick([]int{1, 2}), OrigPwm: rng.Pick([]int{63, 120}), Plan: plan}
+							switch fanK {
+							case "cmd-noget":
+								in.NoGetPwm = true
+							case "file-unreadable", "hwmon-unreadable":
+								for i := range plan {
+									plan[i].PwmRead = "error"
+								}
+							case "file-pair":
+								if k+1 < nCyc {
+									plan[k+1].PwmRead = "error"
+								}
+							}
+							jobs = append(jobs, job{in, []string{"stale-write-shape"}})
+						}
+					}
+				}
 			}
 			// (e) timeouts (2 s per command): few, on command components only
 			var tcombos []comboT
